@@ -6,8 +6,6 @@ import (
 	"os"
 	"path/filepath"
 	"time"
-
-	"github.com/rs/zerolog/log"
 )
 
 // Message implements Message and contains a little bit of data about a
@@ -25,24 +23,11 @@ type Message struct {
 }
 
 // newMessage creates a new FileMessage object and sets the Date and ID fields.
-// It will also delete messages over messageCap if configured.
 func (mb *mbox) newMessage() (*Message, error) {
 	// Load index
 	if !mb.indexLoaded {
 		if err := mb.readIndex(); err != nil {
 			return nil, err
-		}
-	}
-	// Delete old messages over messageCap
-	if mb.store.messageCap > 0 {
-		for len(mb.messages) >= mb.store.messageCap {
-			log.Info().Str("module", "storage").Str("mailbox", mb.name).
-				Msg("Mailbox over message cap")
-			id := mb.messages[0].ID()
-			if err := mb.removeMessage(id); err != nil {
-				log.Error().Str("module", "storage").Str("mailbox", mb.name).Str("id", id).
-					Err(err).Msg("Unable to delete message")
-			}
 		}
 	}
 	date := time.Now()
